@@ -67,7 +67,13 @@ Pinned == <<
   Mk(<<"A", "B">>, Net4, <<0, 0, -1, 0>>, <<3, 2, 2, 4>>, <<UC(<<0, 1, -1, 0>>, -1, 0, 0)>>, TRUE, <<-1, 1>>),
   Mk(<<"A", "B">>, Net5, <<1, 0, 0, 0, 0>>, <<4, 2, 2, 4, 3>>, <<UC(<<0, 0, 0, 1, -1>>, 0, 0, 5)>>, FALSE, <<0, 0>>),
   Mk(<<"A", "B">>, Net5, <<0, 0, 0, 0, 0>>, <<4, 2, 2, 4, 3>>, <<UC(<<0, 1, 1, 0, 0>>, 0, 1, 1)>>, FALSE, <<0, 0>>),
-  Mk(<<"A", "B">>, Net5, <<0, 0, 0, 0, 0>>, <<4, 2, 2, 4, 3>>, <<UC(<<1, 0, 0, 0, 0>>, 1, 1, 3)>>, TRUE, <<0, 2>>)
+  Mk(<<"A", "B">>, Net5, <<0, 0, 0, 0, 0>>, <<4, 2, 2, 4, 3>>, <<UC(<<1, 0, 0, 0, 0>>, 1, 1, 3)>>, TRUE, <<0, 2>>),
+  \* pinned witnesses of recorded findings (visited by every run, whatever the seed)
+  Mk(<<"A">>, << <<1>>, <<-1>> >>, <<3, 0>>, <<4, 5>>, NoU, FALSE, <<0, 0>>),            \* F60: segment far off 0
+  Mk(<<"A", "B", "C">>, << <<1, 0, 0>>, <<-1, 1, 0>>, <<0, -1, 1>>, <<0, 0, -1>>, <<-1, 0, 1>>, <<-1, 0, 0>> >>,
+     <<-1, 0, 0, -1, -1, -5>>, <<2, 3, 3, 2, 2, 5>>, <<UC(<<0, 0, 0, 1, 0, 0>>, -1, 0, 0)>>, TRUE, <<-2, 3>>),  \* F63
+  Mk(<<"A", "B", "C">>, << <<1, 0, 0>>, <<-1, 1, 0>>, <<0, -1, 1>>, <<0, 0, -1>>, <<-1, 0, 0>>, <<0, 1, 0>> >>,
+     <<0, 0, 0, 0, 0, 1>>, <<3, 3, 3, 2, 2, 1>>, <<UC(<<0, 0, 0, 1, 0, 0>>, -1, 0, 0)>>, TRUE, <<-2, 3>>)       \* F64
 >>
 
 Backbone == << <<1, 0, 0>>, <<-1, 1, 0>>, <<0, -1, 1>>, <<0, 0, -1>> >>
